@@ -141,10 +141,12 @@ func verifHTML(rng *rand.Rand, nodes []verifNode, c *verifCounter, inA bool, inH
 			if !ok {
 				return "", false
 			}
+			/* preformatted text may begin with empty lines (the parser drops the first line break only) */
+			lead := strings.Repeat("\n", rng.Intn(5))
 			if rng.Intn(2) == 0 {
-				b.WriteString("<pre>" + kids + "</pre>")
+				b.WriteString("<pre>" + lead + kids + "</pre>")
 			} else {
-				b.WriteString("<pre><code>" + kids + "</code></pre>")
+				b.WriteString("<pre><code>" + lead + kids + "</code></pre>")
 			}
 		case "unk":
 			kids, ok := verifHTML(rng, n.Kids, c, inA, inH)
@@ -639,6 +641,16 @@ func TestVerifMarkup(t *testing.T) {
 			if len(in.Widths) > 0 {
 				seq = in.Widths[(di+obj)%len(in.Widths)]
 				seq = append(append([]int{}, seq...), 1+rng.Intn(120), 3+rng.Intn(40))
+			}
+			/* widths around the length of the longest line as written (where "nothing to wrap" shortcuts would sit) */
+			longest := 0
+			for _, line := range strings.Split(real.text, "\n") {
+				if n := len([]rune(line)); n > longest && n < 200 {
+					longest = n
+				}
+			}
+			if longest > 2 {
+				seq = append(seq, longest-1, longest, longest+1, longest+2, longest)
 			}
 			out.Emit(verifkit.M{"ev": "robj", "obj": obj, "markup": real.markup})
 			for _, w := range seq {
